@@ -240,6 +240,11 @@ pub fn render_type(td: &TypeDef, m: &Module) -> String {
         ts.push(format!("as = {}", lit(&render_ty(t, m))));
     }
     let concrete: Vec<String> = td.params.iter().filter_map(|p| p.concrete.as_ref().map(|c| format!("{} = {}", p.name, render_ty(c, m)))).collect();
+    // a parameter only a skipped marker mentions gets no inferred bound: spell the bounds out
+    // (`bound` replaces the inferred ones, so every type parameter is listed)
+    if td.params.iter().any(|p| p.ts_bound) {
+        ts.push(format!("bound = {}", lit(&td.params.iter().filter(|p| p.concrete.is_none()).map(|p| format!("{}: ts_rs::TS", p.name)).collect::<Vec<_>>().join(", "))));
+    }
     // two concretised parameters: in one list, or split over two attributes (by identifier length)
     let split_concrete = concrete.len() >= 2 && td.ident.len() % 3 != 0;
     if !concrete.is_empty() && !split_concrete {
